@@ -56,6 +56,22 @@ FAMILIES = {
         "vh_cfg": {},
         "tiers": {"quick": {"rand": 200, "rlen": 25, "chunks": 8}, "thorough": {"rand": 3000, "rlen": 40, "chunks": 14}},
     },
+    "ft": {
+        "fix_all": None,
+        "mc": {"module": "MCFT", "cfg": {"quick": "FT-mc-quick.cfg", "thorough": ["FT-mc-quick.cfg", "FT-mc-thorough.cfg"]}, "timeout": {"quick": 300, "thorough": 1800}},
+        "sim": {"module": "SimFT", "cfg": "FT-sim.cfg",
+                "tiers": {"quick": {"num": 100, "depth": 30, "workers": 4}, "thorough": {"num": 3000, "depth": 40, "workers": 8, "timeout": 2400}}},
+        "trace_module": "FTTrace", "trace_cfg": "FT-trace.cfg",
+        "vh_cfg": {},
+        "tiers": {"quick": {"rand": 300, "rlen": 40, "chunks": 8}, "thorough": {"rand": 6000, "rlen": 60, "chunks": 14}},
+    },
+    "mp": {
+        "fix_all": None,
+        "mc": {"module": "MCMP", "cfg": {"quick": "MP-mc-quick.cfg", "thorough": ["MP-mc-quick.cfg", "MP-mc-thorough.cfg"]}, "timeout": {"quick": 300, "thorough": 1800}},
+        "trace_module": "MPTrace", "trace_cfg": "MP-trace.cfg",
+        "variants": [{"vh_cfg": {"L": 6}, "sim_subst": {}}],
+        "tiers": {"quick": {"rand": 6, "rlen": 100000, "chunks": 6}, "thorough": {"rand": 6, "rlen": 100000, "chunks": 6, "vh_cfg": {"L": 8}}},
+    },
 }
 
 SP_ASSUME = COMMON_ASSUME + [
@@ -170,5 +186,24 @@ PROPS = {
         "assumptions": COMMON_ASSUME + ["whole-app ABCI blocks on a fresh chain per history; mint parameters installed through genesis and the params keeper",
                                          "stakers' sink = fee collector + distribution module account (distribution sweeps the fee collector every block)",
                                          "parameter sets: non-negative, three ratios summing to at most 100, valid stipend address"],
+    },
+    "C10": {
+        "family": "ft", "formulas": ["C10_Step", "C10_Store"], "nt": "C10",
+        "bug_variants": [],
+        "rule": "non-trivial = a step that changes the tree, or a message about an existing entry signed by a non-owner, or a post by a "
+                "non-editor of an existing parent; distinct = distinct (pre-state, message, post-state) triples",
+        "assumptions": COMMON_ASSUME + ["digests are derived by the harness's own sha256 code and decoded to symbolic strings for known accounts, "
+                                         "tracking numbers and paths; unknown digests stay raw strings",
+                                         "messages refused by ValidateBasic never reach the state machine and are not part of a trace"],
+    },
+    "C20": {
+        "family": "mp", "formulas": ["C20_Partition", "C20_ParentChild", "C20_PostPath"], "nt": "C20",
+        "bug_variants": [],
+        "rule": "every string over {a,b,/} up to the length bound, under 6 injective mappings of the letters to byte strings (ascii, multi-byte "
+                "unicode, 70-byte pieces, blank/dot, case pairs, NUL/0xff bytes), plus root->child->grandchild posts on the real chain; "
+                "non-trivial = a string containing a separator, or a post chain; distinct = distinct (string, mapping) pairs",
+        "assumptions": ["real types.MerklePath / types.AddToMerkle and the real PostFile handler are evaluated; the symbolic hash of the TLA+ model is injective by construction",
+                        "paths beyond the length bound and other byte strings are not covered",
+                        "reading: the parent/child relation is required for parents that do not end in a separator and non-empty child segments"],
     },
 }
